@@ -240,8 +240,59 @@ class _Stop(Exception):
     pass
 
 
+def InboundStream(rng, inst):
+    from aiortc.rtcsctptransport import InboundStream as IS, DataChunk
+    s = IS()
+    s.sequence_number = rng.choice([0, 0, 1, 65534, 65535, rng.randrange(65536)])
+    tsn0 = rng.choice([0, 1, (1 << 32) - 3, (1 << 32) - 1, rng.randrange(1 << 32)])
+    seq = s.sequence_number
+    used = set()
+    t = tsn0
+    for _ in range(rng.choice([0, 1, 2, 3, 4, 6])):
+        nfrag = rng.choice([1, 1, 1, 2, 3])
+        unordered = rng.random() < 0.2
+        mseq = (seq + rng.choice([0, 0, 0, 1, 2, 65535])) % 65536
+        chunks = []
+        for f in range(nfrag):
+            c = DataChunk()
+            c.flags = (2 if f == 0 else 0) | (1 if f == nfrag - 1 else 0) | (4 if unordered else 0)
+            c.tsn = t % (1 << 32)
+            c.stream_id = 1
+            c.stream_seq = 0 if unordered else mseq
+            c.protocol = 51
+            c.user_data = bytes(rng.getrandbits(8) for _ in range(rng.choice([1, 2, 3])))
+            chunks.append(c)
+            t += 1
+        if rng.random() < 0.15:
+            t += 1          # a TSN that went to another stream
+        seq = (mseq + 1) % 65536
+        rng.shuffle(chunks) if rng.random() < 0.3 else None
+        for c in chunks:
+            if rng.random() < 0.15 or c.tsn in used:
+                continue    # lost
+            used.add(c.tsn)
+            s.add_chunk(c)
+            if rng.random() < 0.5:
+                list(s.pop_messages())
+    if rng.random() < 0.2:
+        s.prune_chunks(rng.choice([tsn0, (tsn0 + 1) % (1 << 32), (t - 1) % (1 << 32)]))
+    return s
+
+
+def DataChunk(rng, inst):
+    from aiortc.rtcsctptransport import DataChunk as DC
+    c = DC()
+    c.flags = rng.choice([0, 1, 2, 3, 4, 7])
+    c.tsn = rng.choice([0, 1, (1 << 32) - 1, rng.randrange(1 << 32)])
+    c.stream_id = 1
+    c.stream_seq = rng.choice([0, 1, 65535, rng.randrange(65536)])
+    c.protocol = 51
+    c.user_data = b"x"
+    return c
+
+
 def AnyRtcp(rng, inst):
     return _rtcp(rng, [0, 1, 2, 1234, (1 << 32) - 1])
 
 
-BUILDERS = {"RtpRouter": RtpRouter, "RTCPeerConnection": RTCPeerConnection, "NackGenerator": NackGenerator, "JitterBuffer": JitterBuffer, "RtpPacket": RtpPacket}
+BUILDERS = {"RtpRouter": RtpRouter, "InboundStream": InboundStream, "RTCPeerConnection": RTCPeerConnection, "NackGenerator": NackGenerator, "JitterBuffer": JitterBuffer, "RtpPacket": RtpPacket}
